@@ -9,8 +9,10 @@ import (
 	"math/big"
 	"testing"
 
+	avm "github.com/artela-network/artela-evm/vm"
 	"github.com/ethereum/go-ethereum/common"
 	"github.com/ethereum/go-ethereum/common/hexutil"
+	"github.com/ethereum/go-ethereum/core/state"
 	"pgregory.net/rapid"
 )
 
@@ -85,7 +87,8 @@ func checkC14(sc *Scenario, st *Stats) *Violation {
 	if err := json.Unmarshal(sc.Extra, &ex); err != nil {
 		return violf("harness/extra", "%v", err)
 	}
-	payload := []byte(sc.Invs[0].Input)
+	main := len(sc.Invs) - 1 // an optional earlier invocation only prepares process / instance state
+	payload := []byte(sc.Invs[main].Input)
 	rec := NewRecorder()
 	rec.KeepMem = true
 	script := NewJPScript(sc, rec)
@@ -101,9 +104,16 @@ func checkC14(sc *Scenario, st *Stats) *Violation {
 		}
 		return nil, nil
 	}
-	art := RunArtela(sc, ArtelaOpts{Debug: true, Rec: rec, Script: script})
-	if art.Obs[0].Panic != "" {
-		return violf("panic", "precompile %#x via %s (depth %d, delegated %v, %d byte payload): the VM panicked: %.1200s", ex.Target, opTypeName(ex.Kind), ex.Depth, ex.Delegated, len(payload), art.Obs[0].Panic)
+	hostBefore := 0
+	art := RunArtela(sc, ArtelaOpts{Debug: true, Rec: rec, Script: script, BeforeInv: func(i int, _ *avm.EVM, _ *state.StateDB) {
+		if i == main {
+			hostBefore = len(script.HostCalls)
+		}
+	}})
+	for i := range art.Obs {
+		if art.Obs[i].Panic != "" {
+			return violf("panic", "precompile %#x via %s (depth %d, delegated %v, %d byte payload): the VM panicked: %.1200s", ex.Target, opTypeName(ex.Kind), ex.Depth, ex.Delegated, len(payload), art.Obs[i].Panic)
+		}
 	}
 	fl, err := BuildFrames(rec.Evs)
 	if err != nil {
@@ -112,12 +122,12 @@ func checkC14(sc *Scenario, st *Stats) *Violation {
 	target := common.BytesToAddress([]byte{ex.Target})
 	var F *Frame
 	for _, f := range fl.Frames {
-		if f.To == target && f.Kind == ex.Kind {
+		if f.Inv == main && f.To == target && f.Kind == ex.Kind {
 			F = f
 		}
 	}
 	berlin := forkIndex(sc.Fork) >= 8
-	calls := script.HostCalls
+	calls := script.HostCalls[hostBefore:]
 	desc := fmt.Sprintf("precompile %#x via %s (fork %s, depth %d, delegated %v, gas arg %d, %d byte payload)", ex.Target, opTypeName(ex.Kind), sc.Fork, ex.Depth, ex.Delegated, ex.GasArg, len(payload))
 	if !berlin {
 		if len(calls) != 0 {
@@ -135,7 +145,7 @@ func checkC14(sc *Scenario, st *Stats) *Violation {
 		return nil
 	}
 	// the storage context of the frame that issued the call
-	issuer := sc.Invs[0].Caller
+	issuer := sc.Invs[main].Caller
 	if F.IssueEv >= 0 {
 		issuer = rec.Evs[F.IssueEv].Addr
 	}
@@ -385,6 +395,13 @@ func genC14(t *rapid.T) *Scenario {
 		inv.To = entry
 	}
 	sc.Invs = []Invocation{inv}
+	if chance(t, 50, "warmup") {
+		// an unrelated earlier context write by ANOTHER address through a plain CALL:
+		// whatever it leaves behind must not influence the call under test
+		w := Invocation{Kind: "call", Origin: EOAAddr, Caller: EOA2Addr, To: common.BytesToAddress([]byte{0x66}), Gas: 100000, JP: false,
+			Input: append(append(append(word32(big.NewInt(64)), word32(big.NewInt(96))...), word32(big.NewInt(0))...), word32(big.NewInt(0))...)}
+		sc.Invs = []Invocation{w, inv}
+	}
 	sc.Extra, _ = json.Marshal(ex)
 	return sc
 }
